@@ -46,9 +46,12 @@ Theorem C05_gen_hash_dispatch : hash_dispatch = [
   ("int16", "{ return hash32(uint32(slice[i]), seed) }");
   ("int32", "{ return hash32(uint32(slice[i]), seed) }");
   ("int64", "{ return hash64(uint64(slice[i]), seed) }");
-  ("float32", "{ return hash32(math.Float32bits(slice[i]), seed) }");
-  ("float64", "{ return hash64(math.Float64bits(slice[i]), seed) }");
+  ("float32", "{ return hash32(math.Float32bits(slice[i]+0), seed) }");
+  ("float64", "{ return hash64(math.Float64bits(slice[i]+0), seed) }");
   ("uintptr", "{ return hash64(uint64(slice[i]), seed) }")]%string.
+Proof. reflexivity. Qed.
+(* the float hashes take the bits of x+0: -0.0 is normalised to +0.0 (Model.float_norm) *)
+Theorem C05_gen_float_normalises_zero : float_hash_normalises_zero = true.
 Proof. reflexivity. Qed.
 Theorem C05_gen_default_partitioner_assigns :
   default_partitioner_assigns = ["= int(frame.Hash(i) % uint32(nshard))"%string].
@@ -76,6 +79,18 @@ Theorem C05_frame_hash_slice : forall cols off p k i seed,
 Proof. exact frame_hash_slice. Qed.
 Print Assumptions C05_frame_hash_position_free.
 
+(* keys that are equal as Go values (kval_eqb = Go's == on every non-NaN value, so
+   +0.0 and -0.0 are equal) have equal hashes, hence equal shards *)
+Theorem C05_go_equal_values_hash_alike : forall seed a b,
+  kval_eqb a b = true -> hash_val seed a = hash_val seed b.
+Proof. exact hash_val_goeq. Qed.
+Theorem C05_go_equal_keys_hash_alike : forall seed k1 k2,
+  key_eqb k1 k2 = true -> key_hash seed k1 = key_hash seed k2.
+Proof. exact key_hash_goeq. Qed.
+Theorem C05_go_equal_keys_same_part : forall k1 k2 n, key_eqb k1 k2 = true -> part k1 n = part k2 n.
+Proof. exact part_goeq. Qed.
+Print Assumptions C05_go_equal_keys_same_part.
+
 (* ------------------------------------------------------------------ the partitioner *)
 Theorem C05_partition_in_range : forall k n, 1 <= n < 4294967296 -> 0 <= part k n < n.
 Proof. exact partition_in_range. Qed.
@@ -96,6 +111,14 @@ Theorem C05_colocated : forall A (keyof : A -> list kval) n prods outs p1 p2 r1 
   In r1 (nth p1 outs []) -> In r2 (nth p2 outs []) -> keyof r1 = keyof r2 -> p1 = p2.
 Proof. exact @colocated. Qed.
 Print Assumptions C05_colocated.
+
+(* the same for keys equal as Go values: no guard about negative zero is needed *)
+Theorem C05_colocated_go_equal : forall A (keyof : A -> list kval) n prods outs p1 p2 r1 r2,
+  1 <= n < 4294967296 -> shuffle (keyed_pf keyof) n prods = Some outs ->
+  In r1 (nth p1 outs []) -> In r2 (nth p2 outs []) ->
+  key_eqb (keyof r1) (keyof r2) = true -> p1 = p2.
+Proof. exact @colocated_goeq. Qed.
+Print Assumptions C05_colocated_go_equal.
 
 (* and that shard is part(key, n): a function of the key value and the shard count alone *)
 Theorem C05_shard_is_part : forall A (keyof : A -> list kval) n prods outs p r,
@@ -134,6 +157,22 @@ Theorem C05_keyed_distinct_global : forall A (keyof : A -> list kval) B (keyB : 
 Proof. exact @keyed_distinct_global. Qed.
 Print Assumptions C05_keyed_distinct_global.
 
+(* the same with key equality as Go's == (keq k1 k2 := key_eqb k1 k2 = true): if each
+   shard emits no two Go-equal keys and exactly the keys it received (up to ==), the
+   whole result has no two Go-equal keys and covers every input key *)
+Theorem C05_keyed_distinct_global_go_equal : forall A (keyof : A -> list kval) B (keyB : B -> list kval)
+    n prods shards (outs : list (list B)),
+  1 <= n < 4294967296 -> shuffle (keyed_pf keyof) n prods = Some shards ->
+  length outs = Z.to_nat n ->
+  (forall p, (p < Z.to_nat n)%nat ->
+      SetoidList.NoDupA keq (map keyB (nth p outs [])) /\
+      (forall b, In b (nth p outs []) -> exists r, In r (nth p shards []) /\ keq (keyB b) (keyof r)) /\
+      (forall r, In r (nth p shards []) -> exists b, In b (nth p outs []) /\ keq (keyof r) (keyB b))) ->
+  SetoidList.NoDupA keq (map keyB (concat outs)) /\
+  forall r, In r (all_rows prods) -> exists b, In b (concat outs) /\ keq (keyof r) (keyB b).
+Proof. exact @keyed_distinct_global_goeq. Qed.
+Print Assumptions C05_keyed_distinct_global_go_equal.
+
 (* Repartition: a row goes to exactly the shard its function returned when that is a
    shard; otherwise the run fails *)
 Theorem C05_repartition_exact : forall A (f : Z -> A -> Z) n prods,
@@ -150,15 +189,23 @@ Theorem C05_repartition_single : forall A (f : Z -> A -> Z) prods,
 Proof. exact @repartition_single. Qed.
 Print Assumptions C05_repartition_exact.
 
-(* ------------------------------------------------------------------ the two places where the
-   faithful model violates the property text (findings; see known_findings) *)
+(* ------------------------------------------------------------------ where the faithful model
+   violates the property text (finding fold-prefixed-input), and the repaired float case *)
 Theorem C05_fold_prefixed_refuted : exists k1 k2 n,
   firstn 1 k1 = firstn 1 k2 /\ 1 <= n < 4294967296 /\ part k1 n <> part k2 n.
 Proof.
   exists [VString [97%N]; VInt 1], [VString [97%N]; VInt 3], 3.
   split; [reflexivity|]. split; [lia|]. exact fold_prefix2_splits_key.
 Qed.
+(* the former float hashing (hash_val_gen false: bits of x instead of x+0) split the
+   Go-equal keys +0.0 and -0.0; repaired in /repo, kept as the witness for that code *)
 Theorem C05_float_negzero_refuted : exists n,
-  1 <= n < 4294967296 /\ part [VFloat64 0] n <> part [VFloat64 9223372036854775808] n.
-Proof. exists 4. split; [lia|]. exact negzero_splits_key. Qed.
+  (1 <= n < 4294967296)%N /\
+  (hash_val_gen false 0 (VFloat64 0) mod n <> hash_val_gen false 0 (VFloat64 9223372036854775808) mod n)%N.
+Proof. exists 4%N. split; [split; [discriminate | reflexivity]|]. exact negzero_split_key_formerly. Qed.
+(* ... and the current one does not, for any shard count *)
+Theorem C05_float_negzero_same_shard : forall n,
+  part [VFloat64 0] n = part [VFloat64 9223372036854775808] n /\
+  part [VFloat32 0] n = part [VFloat32 2147483648] n.
+Proof. exact negzero_same_shard. Qed.
 Print Assumptions C05_fold_prefixed_refuted.
